@@ -137,3 +137,12 @@ claim("C09",
       "does not parse back with FromStr ('T' only). Year sign/width, fraction digit choice, second 60 and padding, i.e. the round trip for concrete values, are not decided.",
       "Trusted: analysis/sym.py; the decoding of rustc's compiled fmt templates (unknown opcodes fail closed).",
       "DESIGN.md 5/C09")
+claim("C10",
+      "call-sequence / argument-table extraction of the strict reader against the RFC 3339 ABNF, writer skeleton and threshold rules, who-may-call rule for character predicates, interval abstract interpretation",
+      "NARROW claim. Decides the shape of both sides: on every success path the strict reader is exactly the fixed-width field sequence of the RFC 3339 ABNF with the "
+      "documented latitude (T/t/space, Z/z, any fraction length >= 1 digit, U+2212), a mandatory colon and minutes in the offset, the +-23:59 bound and rejection of "
+      "trailing input; the writer emits the same skeleton, folds a leap second at exactly nano >= 10^9, truncates fractions by division only and writes +hh:mm with Z only "
+      "for offset 0 on request; digits and letters are classified with ASCII-only predicates; no panic / lossy cast. That the accepted language equals the grammar for "
+      "every string, value correctness and the round trip are not decided.",
+      "Trusted: analysis/sym.py; analysis/abs*.py; specs/justifications.txt; the ABNF transcription in DESIGN appendix A.5.",
+      "DESIGN.md 5/C10")
